@@ -4,6 +4,7 @@ tgdrive: line-protocol driver for the executable models. Same protocol as the Ru
 Imports model files only (no Mathlib), so it links as a native executable.
 -/
 import TgModel.Grammar
+import TgModel.AstWalk
 import TgModel.LineIndex
 import TgModel.Include
 import TgModel.SymbolMap
@@ -82,6 +83,12 @@ def cmdParse (input : List Char) (hashed : Bool) : String :=
     if hashed then
       s!"tree#{hex16 (fnvFeed fnvInit tree)} n={parts.size} errs#{hex16 (fnvFeed fnvInit errs)} ne={r.errors.length}"
     else s!"tree={tree} errs={errs}"
+
+def cmdAstWalk (input : List Char) : String :=
+  match Grammar.parse input with
+  | .panic w => s!"PANIC {repr w}"
+  | .outOfFuel => "OUT-OF-FUEL"
+  | .ok r => s!"walk={" ".intercalate (AstWalk.walkTree r.tree)} ne={r.errors.length}"
 
 partial def countLeaves (t : Tree) : Nat :=
   match t with
@@ -220,6 +227,7 @@ def dispatch (cmd rest : String) : String :=
   | "prep" => match payload rest with | some s => cmdPrep s | none => "bad-utf8"
   | "parse" => match payload rest with | some s => cmdParse s false | none => "bad-utf8"
   | "parseh" => match payload rest with | some s => cmdParse s true | none => "bad-utf8"
+  | "astwalk" => match payload rest with | some s => cmdAstWalk s | none => "bad-utf8"
   | "steps" => match payload rest with | some s => cmdSteps s | none => "bad-utf8"
   | "li" => LineIndex.cmd rest
   | "graph" => cmdGraph rest
